@@ -270,7 +270,7 @@ def eval_bits(bits, env):
         if b == 1:
             n |= 1 << i
         else:
-            n |= ((eval_leaf(b[0], env) >> b[1]) & 1) << i
+            n |= (((eval_leaf(b[0], env) >> b[1]) & 1) ^ (1 if len(b) == 3 else 0)) << i
     return n
 
 
@@ -348,10 +348,23 @@ def t_not(t):
     if width(t) == 1:
         # a 1-bit leaf: express as comparison with 0
         return mk_cmp('Eq', t, FALSE)
+    if t[0] in ('bv', 'lin'):
+        return mk_bv(width(t), tuple(neg_bit(b) for b in bits_of(t)))
     raise Unsupported('bitwise not of symbolic %r' % (t,))
 
 
 # ----------------------------------------------------------------------------- bit operations
+
+def neg_bit(b):
+    """Complement of a bit: 0 <-> 1, (leaf, k) <-> (leaf, k, 1)."""
+    if b == 0:
+        return 1
+    if b == 1:
+        return 0
+    if len(b) == 2:
+        return (b[0], b[1], 1)
+    return (b[0], b[1])
+
 
 def _and_bit(x, y):
     if x == 0 or y == 0:
@@ -362,6 +375,8 @@ def _and_bit(x, y):
         return x
     if x == y:
         return x
+    if x == neg_bit(y):
+        return 0
     return None
 
 
@@ -374,6 +389,8 @@ def _or_bit(x, y):
         return x
     if x == y:
         return x
+    if x == neg_bit(y):
+        return 1
     return None
 
 
@@ -382,8 +399,14 @@ def _xor_bit(x, y):
         return y
     if y == 0:
         return x
+    if x == 1:
+        return neg_bit(y)
+    if y == 1:
+        return neg_bit(x)
     if x == y:
         return 0
+    if x == neg_bit(y):
+        return 1
     return None
 
 
@@ -844,10 +867,11 @@ def show_term(t):
             b = bits[i]
             if isinstance(b, tuple):
                 j = i
-                while j - 1 >= 0 and isinstance(bits[j - 1], tuple) and bits[j - 1][0] == b[0] and bits[j - 1][1] == bits[j][1] - 1:
+                while j - 1 >= 0 and isinstance(bits[j - 1], tuple) and bits[j - 1][0] == b[0] and bits[j - 1][1] == bits[j][1] - 1 and len(bits[j - 1]) == len(b):
                     j -= 1
                 hi_k, lo_k = b[1], bits[j][1]
-                out.append('%s[%d:%d]@%d' % (show_leaf(b[0]), hi_k, lo_k, j) if hi_k != lo_k else '%s[%d]@%d' % (show_leaf(b[0]), hi_k, j))
+                neg = '~' if len(b) == 3 else ''
+                out.append('%s%s[%d:%d]@%d' % (neg, show_leaf(b[0]), hi_k, lo_k, j) if hi_k != lo_k else '%s%s[%d]@%d' % (neg, show_leaf(b[0]), hi_k, j))
                 i = j - 1
             else:
                 j = i
